@@ -40,7 +40,10 @@ def _run(ev: Evaluator, fi: FuncInfo, args, kwargs=None):
 def sym_face(repo: Repo, name: str = "face", line_cls=None) -> Obj:
     face = Obj(name, cls=repo.cls("construct.flat.face.Face"))
     face.set("points", [Sym(f"{name}.p{i}") for i in range(4)])
-    face.set("edges", [Sym(f"{name}.e{i}") for i in range(4)])
+    # edge-data records: objects of class Line (or the class asked for), so that methods the repository calls on them
+    # (EdgeData.reverse() from Face.invert, ...) are dispatched through the repository's own MRO
+    ecls = line_cls if line_cls is not None else repo.cls("construct.edges.Line")
+    face.set("edges", [Obj(f"{name}.e{i}", cls=ecls) for i in range(4)])
     face.set("projected_to", None)
     face.set("patch_name", None)
     return face
